@@ -1,6 +1,6 @@
 from datetime import datetime
 
-from dateparser.conf import settings
+from dateparser.conf import _lock, settings
 from dateparser.date import DateData
 from dateparser.parser import _parser
 
@@ -20,7 +20,8 @@ class CalendarBase:
 
     def get_date(self):
         try:
-            date_obj, period = self.parser.parse(self.source, settings)
+            with _lock:
+                date_obj, period = self.parser.parse(self.source, settings)
             return DateData(date_obj=date_obj, period=period)
         except ValueError:
             pass
